@@ -24,7 +24,7 @@ DEFAULT_EXCLUSIONS = ("*__pycache__*",)
 def get_evaluable_architecture(
     root_path: str,
     module_path: str,
-    exclusions: tuple[str, ...] = DEFAULT_EXCLUSIONS,
+    exclusions: tuple[str, ...] | None = None,
     exclude_external_libraries: bool = True,
     level_limit: int | None = None,
     regex_exclusions: tuple[str, ...] | None = None,
@@ -47,6 +47,10 @@ def get_evaluable_architecture(
         regex_exclusions: Proper regex version of 'exclusions'. Can only be specified if regex_exclusions is not specified.
         regex_external_exclusions: Proper regex version of 'external_exclusions' to exclude certain external dependencies from being integrated into the evaluable. Can only be specified if exclude_external_libraries is False and external_exclusions is not specified. If a parent module (e.g. 'logging') is excluded, so will be child modules (e.g. 'logging.handlers').
     """
+    if exclusions is None:
+        # the default exclusions only apply if the user did not specify exclusions of their own, of either kind
+        exclusions = () if regex_exclusions else DEFAULT_EXCLUSIONS
+
     if regex_exclusions and exclusions:
         raise ImproperlyConfigured(
             "Partial match exclusions and regex exclusions cannot both be specified."
@@ -99,7 +103,7 @@ def get_evaluable_architecture(
 def get_evaluable_architecture_for_module_objects(
     root_module: ModuleType,
     module: ModuleType,
-    exclusions: tuple[str, ...] = DEFAULT_EXCLUSIONS,
+    exclusions: tuple[str, ...] | None = None,
     exclude_external_libraries: bool = True,
     level_limit: int | None = None,
     regex_exclusions: tuple[str, ...] | None = None,
